@@ -170,6 +170,27 @@ def rule_x1(chk: Check, ir, ix: Index):
                                 any(rets[0] is x for x in ast.walk(i)) for i in ast.walk(sp))
     chk.require(ok, "X1-path-literal-gate", "Parser._strip_path_prefix", f"{repo.SUBHEADER}:{sp.lineno}",
                 "a path-literal token may be recognised only under `'p' in prefix` (otherwise plain strings become path_literal calls)")
+    # the prefix is what precedes the *first* quote character, whichever kind it is (finite-domain evaluation)
+    idx_defs = [n for n in ast.walk(sp) if isinstance(n, ast.Assign) and norm_stmt(n.targets[0]) == "idx"]
+    chk.count("X1-path-literal-gate")
+    if len(idx_defs) != 1:
+        chk.fail("X1-path-literal-gate", "Parser._strip_path_prefix:quote-index", f"{repo.SUBHEADER}:{sp.lineno}",
+                 "the position of the opening quote is no longer computed by a single expression")
+    else:
+        samples = ['"zip\'s"', "'say \"hi\"'", 'p"x"', "p'x'", '"a"', "'a'", "pf\"a'b\"", "rb\'\'\'x\'\'\'", 'pr"c:\\dir"', '"p"', "'p\"q'"]
+        bad = []
+        for t in samples:
+            want = min(i for i in (t.find("'"), t.find('"')) if i >= 0)
+            try:
+                got = constfold.fold_expr(idx_defs[0].value, {"text": t})
+            except Exception as e:
+                raise AnalysisError(f"quote index expression not evaluable: {e}")
+            if got != want:
+                bad.append((t, got, want))
+        chk.require(not bad, "X1-path-literal-gate", "Parser._strip_path_prefix:quote-index", f"{repo.SUBHEADER}:{idx_defs[0].lineno}",
+                    f"the string prefix is taken up to position {bad[0][1] if bad else ''} in {bad[0][0] if bad else ''} (the opening quote is at "
+                    f"{bad[0][2] if bad else ''}): text *inside* the literal is read as prefix letters, so a plain string containing the other "
+                    f"quote kind and a `p` becomes a path_literal call")
     cs = repo.find_func(parser, "concatenate_strings")
     calls = [n for n in ast.walk(cs) if isinstance(n, ast.Call) and any(
         isinstance(x, ast.Constant) and x.value == "__xonsh__.path_literal" for x in n.args)]
